@@ -201,16 +201,21 @@ def dash (ops : List String) : String :=
   match ops.mapM dashOp? with
   | none => "bad-op"
   | some ops =>
-    let rec go (st : Dash.St) (ops : List Dash.Op) (acc : List String) : List String :=
+    -- an op that leaves a parent cycle in a folder structure never returns in the Go code (`buildFolderPath`
+    -- spins): the line's answer is then the single token "hang"
+    let rec go (st : Dash.St) (ops : List Dash.Op) (acc : List String) : Option (List String) :=
       match ops with
-      | [] => acc.reverse
+      | [] => some acc.reverse
       | op :: r =>
         let (st1, o) := Dash.step st op
+        if (match op.tenant with | some t => Dash.hasCycle (st1.fs t) | none => false) then none else
         -- the harness reads every tenant back after every op (listItems → getDashboard of every item,
         -- which refreshes stale folder metadata): part of the protocol, mirrored here
         let st2 := [0, 1, 2].foldl (fun s t => (Dash.step s (.list t)).1) st1
         go st2 r (dashTok o :: acc)
-    String.intercalate " " (go Dash.init ops [])
+    match go Dash.init ops [] with
+    | some toks => String.intercalate " " toks
+    | none => "hang"
 
 def handle (cmd : String) (args : List String) : Option String :=
   match cmd, args with
